@@ -1,5 +1,3 @@
-use std::collections::HashMap;
-
 mod pattern_utils;
 
 use pattern_utils::PrefixPattern;
@@ -1194,7 +1192,7 @@ impl<'l> CelCompiler<'l> {
                     CompiledProg::from_children_w_bytecode(
                         expr_list,
                         vec![ByteCode::MkList(expr_list_len as u32)],
-                        |c| c.into(),
+                        |c| CelValue::list_of(c),
                     ),
                     AstNode::new(
                         Primary::ListConstruction(AstNode::new(
@@ -1262,20 +1260,14 @@ impl<'l> CelCompiler<'l> {
                         compiled_children,
                         vec![ByteCode::MkDict(obj_init_len as u32 / 2)],
                         |vals| {
-                            let mut obj_map = HashMap::new();
-                            for i in (0..vals.len()).step_by(2) {
-                                let key = if let CelValue::String(ref k) = vals[i + 1] {
-                                    k
-                                } else {
-                                    return CelValue::from_err(CelError::value(
-                                        "Only strings can be object keys",
-                                    ));
-                                };
-
-                                obj_map.insert(key.clone(), vals[i].clone());
+                            // children are laid out value then key, see parse_obj_inits
+                            let mut entries = Vec::new();
+                            let mut vals = vals.into_iter();
+                            while let (Some(value), Some(key)) = (vals.next(), vals.next()) {
+                                entries.push((key, value));
                             }
 
-                            obj_map.into()
+                            CelValue::map_of(entries)
                         },
                     ),
                     new_ast,
